@@ -7,7 +7,7 @@ from harness.core import use_repo, Divergence
 
 SHAPES = {'s1': (2, 3), 's2': (3, 2)}
 DEPS = {'x': ('a',), 'y': ('a', 'b'), 'z': ('x',)}
-BASE = {'a': 1.0, 'b': 10.0, 'c': 100.0, 'n1': 1000.0}
+BASE = {'a': 1.0, 'b': 10.0, 'c': 100.0, 'n1': 1000.0, 'd1': 300.0, 'd2': 400.0}
 
 
 def values(name, shape, bump=0.0):
@@ -120,11 +120,10 @@ class DWorld(object):
                 self.keep.append(ghost)
                 d.update_id(ghost, ComponentID(n + 'x'))
             elif op == 'Rename':
-                cid = self.cid[n]
-                cid.label = m
-                del self.cid[n]
-                self.cid[m] = cid
-                self.names[id(cid)] = m
+                self.cid[n].label = m
+            elif op == 'AddDup':
+                src = self.by_name(m)
+                self.bind(n, d.add_component(values(n, d.shape), src.label))
             elif op == 'UpdateValues':
                 self.bump += 1
                 d.update_components({self.cid[n]: values(n, d.shape, self.bump)})
@@ -159,6 +158,16 @@ class DWorld(object):
                 return type(e).__name__
             raise
         return None
+
+    def by_name(self, name):
+        d = self.data
+        if name in self.cid:
+            return self.cid[name]
+        if name.startswith('p'):
+            return d.pixel_component_ids[int(name[1:]) - 1]
+        if name.startswith('w'):
+            return d.world_component_ids[int(name[1:]) - 1]
+        raise KeyError(name)
 
     def closure(self, m):
         s = {m}
@@ -275,13 +284,15 @@ class DWorld(object):
                 return ('evaluable[%s]' % self.name_of(c), 'array of the dataset shape', 'raised %s: %s' % (type(e).__name__, e))
             if tuple(arr.shape) != tuple(d.shape):
                 return ('component_shape[%s]' % self.name_of(c), list(d.shape), list(arr.shape))
-        labels = [c.label for c in comps]
-        for c in comps:
-            # documented precedence: main > derived > coordinate; unique match within the first class that has one
-            f = d.find_component_id(c.label)
-            same = [k for k in comps if k.label == c.label]
-            if len(same) == 1 and f is not c:
-                return ('lookup[%s]' % c.label, self.name_of(c), None if f is None else self.name_of(f))
+        for name, want in sorted(st.get('lookup', {}).items()):
+            try:
+                label = self.by_name(name).label
+            except (KeyError, IndexError):
+                continue
+            f = d.find_component_id(label)
+            got = 'none' if f is None else self.name_of(f)
+            if got != want:
+                return ('lookup[%s]' % label, want, got)
         if d.find_component_id('no-such-attribute') is not None:
             return ('lookup[absent]', None, 'something')
         return None
